@@ -52,6 +52,7 @@ struct Harness
 	virtual std::vector<Op> simpler(const Op& op) const { (void)op; return {}; } // simpler variants of one op
 	virtual std::vector<std::pair<std::string, int64_t>> knob_floor() const { return {}; } // knobs and the value to shrink toward
 	virtual bool keep_op(const Plan& p, size_t i) const { (void)p; (void)i; return false; } // ops minimisation must not drop
+	virtual void finish() {}                                                       // called once before the process exits
 };
 
 // fills scheduler knobs (sched_seed, policy, p_preempt_pm, pct_depth) into a plan; call from generate()
